@@ -520,7 +520,10 @@ func (cm *BasicConnMgr) getConnsToClose() []network.Conn {
 		// lock this to protect from concurrent modifications from connect/disconnect events
 		s := cm.segments.get(inf.id)
 		s.Lock()
-		if len(inf.conns) == 0 && inf.temp {
+		if inf.firstSeen.After(gracePeriodStart) {
+			// a temporary entry that received its first connection after the snapshot above:
+			// its grace period has just started, leave it alone.
+		} else if len(inf.conns) == 0 && inf.temp {
 			// handle temporary entries for early tags -- this entry has gone past the grace period
 			// and still holds no connections, so prune it.
 			delete(s.peers, inf.id)
